@@ -413,30 +413,22 @@ def run(ctx):
                 e = header_histories(h, m, s, wd)
                 if e:
                     ctx.broken.append(("correspondence header id model vs STEPfile header instances", e))
-                # ReadComment's limit (Generated.maxCommentLength = 8192): the comment theorems carry `CommentBound`; at the bound the
-                # round trip must work, one character above it the record behind the comment is lost (recorded class, C10's root cause)
+                # ReadComment had a limit of 8192 characters (the record behind a longer comment was lost) until repair C01-9; the
+                # comment theorems carry `CommentBound`, vacuous while `Generated.commentLengthLimit = none` (C16_comments_any_length).
+                # Comments at, just above and far above the old limit must round-trip.
                 t0 = s.targets[0].upper()
-                for nlen in (8192, 8193):
+                for nlen in (8192, 8193, 20000):
                     lp = [G.Inst(1, [(t0, [("tok", "1"), ("null",), ("null",)])]),
                           G.Inst(2, [(t0, [("tok", "2"), ("null",), ("null",)])], comment="/*" + "c" * nlen + "*/")]
                     r = run_case(ctx, h, m, s, lp, [], ["completeSE", "completeSE"], 0, wd, "lc", wc=1)
                     ctx.hist("instance comment length", str(nlen))
                     if r and r[0] == "property":
-                        ctx.violation(K_LONG_COMMENT if nlen > 8192 else "ws:comment-at-8192", r[1],
+                        ctx.violation(K_LONG_COMMENT if nlen > 8192 else "ws:comment-at-8192", f"instance comment of {nlen} characters: " + r[1],
                                       {"schema_express": s.express(), "schema_name": s.name, "strict": 0, "states": ["completeSE", "completeSE"],
                                        "file": G.render(s.name, lp), "writeComments": 1, "header": None, "start": "exchange",
                                        "how": "exp2cxx the schema, link harness/h_p21.cc; reset 0; read FILE; writework W 1; readwork W; dump"})
-                    elif r and nlen <= 8192:
-                        ctx.broken.append(("correspondence Session model vs STEPfile working-session read/write", "comment of 8192 characters: " + r[1]))
-                # around STEPfile::_maxErrorCount (100000): every skipped `D` entry is counted as a record that yielded no instance
-                for nd in (99999, 100000, 100001):
-                    e = many_deleted(ctx, h, s, wd, nd)
-                    if e:
-                        t0 = s.targets[0].upper()
-                        ctx.violation(K_MANY_DELETED if nd > 100000 else f"ws:deleted-run:{nd}", e,
-                                      {"schema_express": s.express(), "schema_name": s.name, "leading_deleted": nd,
-                                       "how": f"working-session file: {nd} lines `D#i={t0}(1,$,$);` (i = 1..{nd}) then `C#{nd + 1}={t0}(1,$,$);`; "
-                                              "harness: reset 1; readwork FILE; dump"})
+                    elif r:
+                        ctx.broken.append(("correspondence Session model vs STEPfile working-session read/write", f"comment of {nlen} characters: " + r[1]))
             for pi_ in range(n_pops):
                 pop0 = G.gen_population(ctx.rng, s, ctx.rng.randint(1, 5 if quick else 8), p_null_optional=0.3)
                 pop, holes = partial_fill(ctx.rng, s, pop0, p=0.0 if pi_ % 3 == 0 else 0.35)
